@@ -181,6 +181,19 @@ def esc2(ctx, c):
                               "%s indexes %s[%s] with no dominating emptiness check; it is reached from Program.parse outside any broad handler, so an empty operand ends in IndexError"
                               % (f.q, name, k), repo.loc(f, x))
     c.floor("first/last-element accesses in the parse phase", n, 2)
+    # str.index / list.index raise ValueError when the element is missing
+    for q in sorted(reach):
+        f = cg.funcs.get(q)
+        if f is None or not f.module.rel.startswith("cocoasm/"):
+            continue
+        for x in ast.walk(f.node):
+            if isinstance(x, ast.Call) and isinstance(x.func, ast.Attribute) and x.func.attr in ("index", "rindex") and x.args:
+                tr = _enclosing_try(f.node, x)
+                caught = tr is not None and any(h.type is None or any(nm in U(h.type) for nm in ("ValueError", "Exception")) for h in tr.handlers)
+                if not caught:
+                    c.finding("%s:%s" % (f.q, U(x.func)[-30:]), "%s() raises ValueError when nothing is found" % x.func.attr,
+                              "%s calls %s outside a handler in the parse phase: when the searched item is missing (an unterminated string) the ValueError leaves Program.process as a traceback"
+                              % (f.q, U(x)[:50]), repo.loc(f, x))
 
 
 def _guarded(g, f, name, sub):
@@ -265,6 +278,16 @@ def term1(ctx, c):
             covers = any(isinstance(x, ast.For) and re.fullmatch(r"enumerate\(self\.statements\)|self\.statements", U(x.iter)) for x in ast.walk(lp)) and \
                 any(x.endswith(".determine_pcr_relative_sizes") for x in calls)
             has_exit = any(isinstance(x, ast.Break) for x in ast.walk(lp)) or any(isinstance(x, ast.Raise) for x in lp.body)
+            # the sizing call must be made for EVERY statement that all_sizes_fixed() still reports as unsized
+            for gi in [x for x in ast.walk(lp) if isinstance(x, ast.If) and any(isinstance(y, ast.Call) and U(y.func).endswith(".determine_pcr_relative_sizes") for y in ast.walk(x))]:
+                tt = gi.test
+                conj = tt.values if isinstance(tt, ast.BoolOp) and isinstance(tt.op, ast.And) else [tt]
+                extra = [U(v) for v in conj if re.fullmatch(r"not \w+\.fixed_size", U(v)) is None]
+                if extra:
+                    covers = False
+                    c.finding(site + ":coverage", "sizing is skipped for unsized statements unless %s" % " and ".join(extra),
+                              "the sizing loop runs until no statement is unsized, but sizes a statement only when `%s` also holds: an unsized statement failing that test is never sized and the loop never ends"
+                              % " and ".join(extra), repo.loc(ts, gi))
             if covers and always_fixes:
                 c.ok(site, "every unfixed statement is sized on each pass and sizing always fixes it: at most one pass", repo.loc(ts, lp))
             elif has_exit and covers:
